@@ -24,7 +24,8 @@ PROP = {
                   "and rules_count unchanged and the file's marker nowhere (any file under the data directory, "
                   "status answer, response bodies, check_host); target inside and a valid list => 200 and the "
                   "marker rule stored, counted and in force. The HTTP client is a recording stub. Exploration: no "
-                  "absence claim.",
+                  "absence claim."
+                  " The server's data directory lies inside the generated tree; configured lists may be switched off; an inotify IN_OPEN watch on the tree is the kernel's record that no file outside the patterns was even opened by any API call or refresh.",
     "level_note": "Symlinks and /proc/self/fd-style aliases are outside the quantifier (symlink-free); races "
                   "between check and open are not examined. Only the Unix path rules are exercised. The stub "
                   "transport refuses non-http schemes the way net/http's transport does, so a file:// location "
